@@ -5,7 +5,7 @@ import copy
 import math
 import random
 
-from pbv import core, loopsuite, scen, shots
+from pbv import core, lattice, loopsuite, scen, shots
 
 ULPS = 64
 
@@ -29,6 +29,7 @@ def run(chk: core.Check, replay=None) -> None:
     core.use_repo()
     thorough = chk.tier == "thorough"
     loopsuite.design(chk, "C11")
+    lattice.replay(chk, "C11", thorough)          # exact spec -> code replay of whole fire() results
     behs = loopsuite.gen_behaviours(chk, 2000 if thorough else 300, chk.seed + 11)
     loopsuite.object_replay(chk, "C11", behs)
     rng = random.Random(chk.seed * 23 + 11)
